@@ -447,6 +447,77 @@ def check_pairs(ctx, out, vb, rule="C06.adjacent"):
         else:
             n += 1
     out.inst(rule, n, 8, ["for each of the 8 key patterns of 3 lines: comparator pairs == consecutive keyed lines, in (earlier, later) order"], exhaustive=True)
+    # ---- first violation wins: three keyed lines, the comparator reports every pair as out of order
+    #      (ascending block, answer Greater): the scan must stop at the first pair - one violation,
+    #      no further comparison
+    vsites = {bi for bi, t in vb.calls() if callee_matches(t, r"validators::Violation::new$") or
+              (ctx.facts.body(t.get("res") or "") is not None and re.search(r"Result<blockwatch::validators::Violation,|^blockwatch::validators::Violation$", ctx.facts.body(t.get("res")).local_ty(0)))}
+    calls = []
+    built = []
+
+    def hook2(w, bb, t, argv, env):
+        nm = callee_name(t)
+        if bb in drivers:
+            return CW.adt("std::option::Option", "Some", 1, [("0", CW.TOP)])
+        if bb in keysites:
+            i = env.get(-1, CW.const(0))[1]
+            if i >= 3:
+                return "diverge"
+            env[-1] = CW.const(i + 1)
+            return CW.adt("std::option::Option", "Some", 1, [("0", ("tuple", (CW.sym("K%d" % (i + 1)), CW.TOP)))])
+        if bb in cmp_sites:
+            k = env.get(-7, CW.const(0))[1] + 1
+            env[-7] = CW.const(k)
+            calls.append(k)
+            return CW.adt("std::result::Result", "Ok", 0, [("0", ("adt", "std::cmp::Ordering", "Greater", 1, ()))])
+        if re.search(r"HashMap::<K, V, S, A>::(get|contains_key)$", nm) and len(argv) > 1 and w.deref_val(env, argv[1]) == CW.const(NAME):
+            return CW.const(1) if nm.endswith("contains_key") else CW.adt("std::option::Option", "Some", 1, [("0", CW.const("asc"))])
+        if re.search(r"anyhow::Context.*::(context|with_context)$|anyhow::context::<impl anyhow::Context|Result::<T, E>::map_err$", nm):
+            a0 = w.deref_val(env, argv[0]) if argv else CW.TOP
+            return a0 if a0[0] == "adt" and a0[2] == "Ok" else None
+        if re.search(r"<impl str>::to_(ascii_)?lowercase$|<impl str>::trim$", nm):
+            a0 = w.deref_val(env, argv[0]) if argv else CW.TOP
+            return a0 if CW.is_const(a0) else None
+        if re.search(r"<impl str>::is_empty$|string::String::is_empty$", nm):
+            a0 = w.deref_val(env, argv[0]) if argv else CW.TOP
+            return CW.const(1 if a0[1] == "" else 0) if CW.is_const(a0) and isinstance(a0[1], str) else None
+        if re.search(r"cmp::PartialEq.*>::(eq|ne)$", nm):
+            a0 = w.deref_val(env, argv[0]) if argv else CW.TOP
+            b0 = w.deref_val(env, argv[1]) if len(argv) > 1 else CW.TOP
+            if CW.is_const(a0) and CW.is_const(b0):
+                r = a0[1] == b0[1]
+                return CW.const(1 if (r != nm.endswith("::ne")) else 0)
+        return std(w, bb, t, argv, env)
+    w2 = CW.Walk(ctx, vb, [hook2])
+
+    def on_visit2(bb, env):
+        if bb in vsites:
+            k = env.get(-8, CW.const(0))[1] + 1
+            env[-8] = CW.const(k)
+            built.append(k)
+    w2.on_visit = on_visit2
+    first2 = [True]
+
+    def stop2(bb, env):
+        if bb == h:
+            if first2[0]:
+                first2[0] = False
+                return False
+            return True
+        return False
+    nf = 0
+    try:
+        w2.explore(h, {}, stop2)
+        if max(calls or [0]) > 1 or max(built or [0]) > 1:
+            out.viol("C06.first", "C06.first|continues", ctx.where(vb),
+                     "after a pair of neighbouring keys was found out of order the scan goes on (the comparator is consulted %d times, %d violation(s) are built for one block): at most one violation per block is reported, and it is the first" % (max(calls or [0]), max(built or [0])))
+        elif not built:
+            out.viol("C06.first", "C06.first|none", ctx.where(vb), "no violation is built although the comparator reports the first pair of an ascending block as out of order")
+        else:
+            nf = 1
+    except CW.Limit as e:
+        out.viol("C06.first", "C06.first|limit", ctx.where(vb), "case analysis did not finish (%s)" % e)
+    out.inst("C06.first", nf, 1, ["every pair out of order: one comparison, one violation, then the scan of the block ends"])
 
 
 def check_key_table(ctx, out, kfs, rule="C06.keytab"):
@@ -651,9 +722,7 @@ def run(ctx, out, tier):
 
         check_pairs(ctx, out, vb)
 
-    # ------------------------------------------------------------------ C06.first
-    n_first = linelevel.first_wins(ctx, out, "C06.first", vb, region, header, pushes, "keep-sorted")
-    out.inst("C06.first", n_first, 1, ["push -> leaves the line loop"])
+    # (C06.first is decided together with C06.adjacent by case analysis, see check_pairs)
 
     # ------------------------------------------------------------------ C06.key
     n_key = 0
